@@ -221,6 +221,20 @@ pub fn check_bytes(bytes: &[u8], input: &FstInput, full: bool) -> CheckResult {
             Err(e) => vfail!("stream-mismatch", "raw into_str_keys failed on valid UTF-8 keys: {:?}", e),
         }
     }
+    // two streams over the same Fst, advanced alternately, do not disturb each other
+    {
+        let (mut s1, mut s2) = (f.stream(), f.stream());
+        let (mut g1, mut g2): (Pairs, Pairs) = (vec![], vec![]);
+        let _ = s2.next().map(|(k, o)| g2.push((k.to_vec(), o.value())));
+        loop {
+            let a = s1.next().map(|(k, o)| g1.push((k.to_vec(), o.value()))).is_some();
+            let b = s2.next().map(|(k, o)| g2.push((k.to_vec(), o.value()))).is_some();
+            if !a && !b {
+                break;
+            }
+        }
+        vensure!(&g1 == want && &g2 == want, "stream-mismatch", "two interleaved streams over one Fst yield {} and {} but inserted {}", short(&g1), short(&g2), short(want));
+    }
     // stream keeps returning None after exhaustion
     let mut s = f.stream();
     while s.next().is_some() {}
